@@ -18,7 +18,12 @@ def main(argv=None):
     e = sub.add_parser("explain")
     e.add_argument("path")
     sub.add_parser("selfcheck")
+    st = sub.add_parser("selftest")
+    st.add_argument("rest", nargs=argparse.REMAINDER)
     a = ap.parse_args(argv)
+    if a.cmd == "selftest":
+        from .selftest.run import main as stmain
+        return stmain(a.rest)
     if a.cmd == "explain":
         with open(a.path) as fh:
             d = json.load(fh)
@@ -46,8 +51,22 @@ def main(argv=None):
         eng = Engine(a.root)
         rep = Report(pid, tier, seed)
         mod.run(eng, rep)
-        if tier == "thorough" and hasattr(mod, "thorough"):
-            mod.thorough(eng, rep)
+        if tier == "thorough":
+            if hasattr(mod, "thorough"):
+                mod.thorough(eng, rep)
+            # self-test of the checker on scratch variants of the current tree (firing / silent), 16 workers
+            from .selftest.run import run_variants, summarise
+            res, dt = run_variants([pid], jobs=int(os.environ.get("DFV_JOBS", "16")))
+            summ = summarise(res)
+            rep.extra["selftest"] = dict(summ, wall_s=round(dt, 1), variants=[{"id": v, "status": st, "detail": m[:200]} for (v, _p, st, m) in res])
+            rep.explain("Thorough tier: additionally %d catalogue variants of the current tree (one construct broken each / behaviour-preserving rewrites) were analysed on "
+                        "scratch copies: %s." % (len(res), summ))
+            for (v, _p, st, m) in res:
+                if st in ("missed", "false-alarm", "error"):
+                    rep.unknown("selftest", v, "checker self-test failed (%s): %s" % (st, m[:300]))
+                elif st in ("fired", "silent"):
+                    rep.ok("selftest.%s" % ("firing-variant" if st == "fired" else "silent-variant"), v,
+                           "variant %s: %s" % (v, "violation reported on the broken construct" if st == "fired" else "verdict unchanged by the rewrite"))
         code, lines = rep.finalize(hashes=eng.prog.hashes, resolver_stats=eng.res.stats(), write=not a.no_evidence)
     except AnalysisError as ex:
         print("ANALYSIS-ERROR property=%s %s" % (pid, ex))
